@@ -390,11 +390,14 @@ Section CrashInv.
     Aux pre sg x /\ DiskOkW c nv sb pre (fdat x) sg.
 
   (* first-time initialisation not finished: no settings file yet (then there is no snapshot
-     and no segment either, the map is empty and open initialises again).  As everywhere in
-     this development (open_fresh, open_fresh_disk) the first open is covered for
-     pre_create_cas_dirs = false; the settings file stores num_ops_per_wal as a u64 *)
+     and no segment either, the map is empty and open initialises again).  Either choice of
+     pre_create_cas_dirs: nothing is said about the directories, so with c_pre cfg = true ANY
+     part of the fan-out tree under cas/ may exist already (the first open was killed in the
+     middle of the mkdir loop: the settings file is written only after the loop, and the next
+     open runs the loop again, skipping what exists).  The settings file stores
+     num_ops_per_wal as a u64 *)
   Definition RestF (sg : smap bytes) (x : fs) : Prop :=
-    sg = [] /\ c_pre cfg = false /\ c_n cfg < 2 ^ 64 /\ FsWf x /\ stage_fresh x /\
+    sg = [] /\ c_n cfg < 2 ^ 64 /\ FsWf x /\ stage_fresh x /\
     fdat x PSettings = None /\ fdat x PIndex = None /\ forall i, fdat x (PWal i) = None.
 
   (* THE memory-less invariant: recovery from x yields exactly sg.  The seal bound is the
@@ -475,7 +478,7 @@ Section CrashInv.
   Qed.
 
   Lemma rest_wf : forall x sg, Rest x sg -> FsWf x.
-  Proof. intros x sg (_ & _ & [(c & nv & pre & (W & _) & _)|(_ & _ & _ & W & _)]); exact W. Qed.
+  Proof. intros x sg (_ & _ & [(c & nv & pre & (W & _) & _)|(_ & _ & W & _)]); exact W. Qed.
 
   (* ---------------------------------------------------------------- *)
   (* K5. what the invariant does not look at                           *)
@@ -513,7 +516,7 @@ Section CrashInv.
   Lemma restf_agree : forall sg x x', RestF sg x -> FsWf x' -> stage_fresh x' ->
     meta_agree x x' -> RestF sg x'.
   Proof.
-    intros sg x x' (E & P & Nf & _ & _ & G1 & G2 & G3) W' S' (M1 & M2 & M3).
+    intros sg x x' (E & Nf & _ & _ & G1 & G2 & G3) W' S' (M1 & M2 & M3).
     repeat (split; [assumption|]). split; [now rewrite M1|]. split; [now rewrite M2|].
     intros i. now rewrite M3.
   Qed.
@@ -647,7 +650,7 @@ Section CrashInv.
   Proof.
     intros sg cl Hh x x' R E.
     assert (WS : FsWf x /\ stage_fresh x).
-    { destruct R as (_ & _ & [(c & nv & pre & (W & Sf & _) & _)|(_ & _ & _ & W & Sf & _)]); now split. }
+    { destruct R as (_ & _ & [(c & nv & pre & (W & Sf & _) & _)|(_ & _ & W & Sf & _)]); now split. }
     destruct WS as [W Sf].
     destruct (harmless_agree sg cl x x' Hh W Sf E) as (W' & S' & Di & M & Ca).
     eapply rest_agree; eassumption.
@@ -655,7 +658,7 @@ Section CrashInv.
 
   Lemma restf_keeps : forall sg cl, harmless [] cl -> call_keeps (RestF sg) cl.
   Proof.
-    intros sg cl Hh x x' R E. pose proof R as (_ & _ & _ & W & Sf & _).
+    intros sg cl Hh x x' R E. pose proof R as (_ & _ & W & Sf & _).
     destruct (harmless_agree [] cl x x' Hh W Sf E) as (W' & S' & Di & M & Ca).
     eapply restf_agree; eassumption.
   Qed.
@@ -739,7 +742,7 @@ Section CrashInv.
   Proof.
     intros sg x x' R W' Di Ns V.
     assert (Sf : stage_fresh x).
-    { destruct R as (_ & _ & [(c & nv & pre & (_ & Sf & _) & _)|(_ & _ & _ & _ & Sf & _)]); exact Sf. }
+    { destruct R as (_ & _ & [(c & nv & pre & (_ & Sf & _) & _)|(_ & _ & _ & Sf & _)]); exact Sf. }
     eapply rest_agree; [exact R|exact W'| |exact Di| |].
     - intros i Li. rewrite Ns in Li. rewrite V. now apply Sf.
     - split; [apply V|]. split; [apply V|]. intros i. apply V.
@@ -814,7 +817,7 @@ Section CrashInv.
 
   Lemma restb_fresh : forall B x sg, RestB B x sg -> stage_fresh x.
   Proof.
-    intros B x sg (_ & _ & [(c & nv & pre & _ & (_ & Sf & _) & _)|(_ & _ & _ & _ & Sf & _)]); exact Sf.
+    intros B x sg (_ & _ & [(c & nv & pre & _ & (_ & Sf & _) & _)|(_ & _ & _ & Sf & _)]); exact Sf.
   Qed.
 
   Lemma restb_keeps : forall B sg cl, harmless sg cl -> call_keeps (fun x => RestB B x sg) cl.
